@@ -1,4 +1,5 @@
 (** extraction entry point for C14: the validator on one code object per line *)
+(* built before extraction (lib/vplib.py Model reads these names): ErgV.Common.Sx ErgV.gen.PyOps ErgV.CodeValid.Model ErgV.CodeValid.Spec *)
 From Coq Require Import ZArith List Bool FMapPositive.
 From ErgV Require Import Common.Sx CodeValid.Model CodeValid.Spec.
 Import ListNotations.
@@ -7,11 +8,11 @@ Open Scope Z_scope.
 Definition dec_effects (x : sx) : effects :=
   map (fun e => (sx_z (sx_nth e 0), sx_z (sx_nth e 1), sx_z (sx_nth e 2), sx_z (sx_nth e 3))) (sx_l x).
 
-(* (mode ver code stacksize nconsts nnames nlocals nfree firstlineno linetable nlines exclen chkdepth effects) *)
+(* (mode ver code stacksize nconsts nnames nlocals nfree firstlineno linetable nlines exclen chkdepth effects linked entrydepth) *)
 Definition dec_co (x : sx) : codeobj :=
   mkco (sx_zs (sx_nth x 2)) (sx_z (sx_nth x 3)) (sx_z (sx_nth x 4)) (sx_z (sx_nth x 5)) (sx_z (sx_nth x 6))
        (sx_z (sx_nth x 7)) (sx_z (sx_nth x 8)) (sx_zs (sx_nth x 9)) (sx_z (sx_nth x 10)) (sx_z (sx_nth x 11))
-       (sx_to_bool (sx_nth x 12)).
+       (sx_to_bool (sx_nth x 12)) (sx_to_bool (sx_nth x 14)) (sx_z (sx_nth x 15)).
 
 Definition enc_line (r : lineres) : list sx :=
   match r with LLine l => [SZ 0; SZ l] | LNone => [SZ 1; SZ 0] | LBad => [SZ 2; SZ 0] end.
@@ -44,11 +45,11 @@ Definition run_validate (v : pyver) (x : sx) : sx :=
   | None => SL [SZ 0]
   | Some p =>
     let S := co_stacksize c in
-    let ann := if co_chkdepth c then compute_annot v E S p else AFuel in
+    let ann := if co_chkdepth c then compute_annot v E S (co_entry c) p else AFuel in
     let depth := (* status pc d maxdepth *)
       if co_chkdepth c then
         match ann with
-        | ADone m => if check_annot v E S p m then [SZ 0; SZ 0; SZ 0; SZ (max_depth v E p m)] else [SZ 4; SZ 0; SZ 0; SZ 0]
+        | ADone m => if check_annot v E S (co_entry c) p m then [SZ 0; SZ 0; SZ 0; SZ (max_depth v E p m)] else [SZ 4; SZ 0; SZ 0; SZ 0]
         | ABad pc d => [SZ 1; SZ pc; SZ d; SZ 0]
         | AFuel => [SZ 2; SZ 0; SZ 0; SZ 0]
         end
@@ -69,12 +70,12 @@ Definition run_validate (v : pyver) (x : sx) : sx :=
         SL [sx_bool lo; match badl with Some i => SL (SZ (i_opoff i) :: enc_line (line_at v c (i_opoff i))) | None => SL [] end];
         sx_bool vn;
         sx_bool (vn && lo);                (* = valid_code v E c, see Model.valid_code *)
-        sx_bool (Known_C14 v);
+        SZ (if 310 <=? pv_id v then 1 else if co_linked c then 2 else 0);  (* Known_C14 v c, with the class *)
         SL (map (enc_instr v c) p)]
   end.
 
 (** modes:
-    (0 ver code stacksize nconsts nnames nlocals nfree firstlineno linetable nlines exclen chkdepth effects)
+    (0 ver code stacksize nconsts nnames nlocals nfree firstlineno linetable nlines exclen chkdepth effects linked entrydepth)
         -> (0) undecodable | (1 nonempty exc_ok (depth_status pc d maxdepth) (jumps_ok bad) (index_ok bad) (lines_ok bad)
                                valid_nolines valid_code known instrs)
            depth_status: 0 ok | 1 a path leaves 0..stacksize at pc with depth d (or no stack effect: d=-1000000)
@@ -88,7 +89,7 @@ Definition run (x : sx) : sx :=
   | Some v =>
     if mode =? 0 then run_validate v x
     else if mode =? 1 then
-      let c := mkco [] 0 0 0 0 0 (sx_z (sx_nth x 2)) (sx_zs (sx_nth x 3)) 0 0 false in
+      let c := mkco [] 0 0 0 0 0 (sx_z (sx_nth x 2)) (sx_zs (sx_nth x 3)) 0 0 false false 0 in
       SL (map (fun a => SL (enc_line (line_at v c a))) (sx_zs (sx_nth x 4)))
     else SL [sx_bool (judge v (dec_effects (sx_nth x 13)) (dec_co x))]
   end.
